@@ -2,7 +2,7 @@
 with the documented reference tables (DESIGN.md appendix C)."""
 
 import re
-from facts import canon, walk, callee_name, pp, pp_pat
+from facts import canon, walk, callee_name, pp, pp_pat, callee_decl
 
 TOK = 'rsbdd::parser::SymbolicBDDToken'
 PARSER = 'rsbdd::parser::SymbolicBDD::'
@@ -158,6 +158,34 @@ def tokenizer_pattern(lib):
     return None, None
 
 # ---------------------------------------------------------------- table extraction
+def const_pair_table(lib, e):
+    """pairs of a `const NAME: [(A, B); N] = [(a1, b1), ..]` referenced (NamedConst) below expression e.
+    Components are decoded as: string literal -> str; array of string literals -> tuple of str; unit enum variant -> ('enum', adt, variant)"""
+    def dec(x):
+        while x['k'] in ('Borrow', 'Deref', 'Use', 'PointerCoercion', 'NeverToAny'): x = x.get('arg') or x.get('source')
+        if x['k'] == 'Literal' and x.get('lit') == 'Str': return x['value']
+        if x['k'] == 'Array' and all(dec(f) is not None and isinstance(dec(f), str) for f in x['fields']): return tuple(dec(f) for f in x['fields'])
+        if x['k'] == 'Adt' and not x['fields']: return ('enum', canon(x['adt']), x['variant'])
+        return None
+    for nc in walk(e):
+        if nc['k'] != 'NamedConst': continue
+        t = lib.ithir.get(canon(nc['def']))
+        if t is None: continue
+        b = t['body']
+        while b['k'] in ('Borrow', 'Deref', 'Use', 'PointerCoercion', 'NeverToAny') or (b['k'] == 'Block' and not b['stmts'] and b['expr'] is not None):
+            b = b.get('arg') or b.get('source') or b.get('expr')
+        if b['k'] != 'Array' or not b['fields']: continue
+        rows = []
+        for f in b['fields']:
+            g = f
+            while g['k'] in ('Borrow', 'Deref', 'Use'): g = g.get('arg') or g.get('source')
+            if g['k'] != 'Tuple' or len(g['fields']) != 2: rows = None; break
+            l, r = dec(g['fields'][0]), dec(g['fields'][1])
+            if l is None or r is None: rows = None; break
+            rows.append((l, r))
+        if rows: return canon(nc['def']), rows
+    return None, None
+
 def tokenize_tables(lib):
     """{group: {spelling: token}} for the symbol / identifier matches of tokenize, plus handled groups in order"""
     t = lib.ithir.get(PARSER + 'tokenize')
@@ -198,6 +226,22 @@ def tokenize_tables(lib):
                         if not pushes_payload: continue
                         ms = [m for m in walk(ht['body']) if m['k'] == 'Match' and any(const_str(p) is not None for a in m['arms'] for p in flat_pats(a['pat']))]
                         if ms: break
+                if not ms:
+                    # or in a const array of (spelling, token) pairs looked up with `find(|(text, _)| *text == group)`; the Some payload's token is pushed
+                    cname, rows = const_pair_table(lib, e['then'])
+                    finds = [x for x in walk(e['then']) if x['k'] == 'Call' and callee_decl(x) in ('std::iter::Iterator::find', 'std::iter::Iterator::position')]
+                    if rows and finds and all(isinstance(l, str) and isinstance(r, tuple) and r[0] == 'enum' and r[1] == TOK for l, r in rows):
+                        cl = [x for x in walk(finds[0]['args'][1]) if x['k'] == 'Closure']
+                        ct = lib.ithir.get(canon(cl[0]['def'])) if cl else None
+                        eqs = [x for x in walk(ct['body']) if (x['k'] == 'Call' and callee_decl(x) == 'std::cmp::PartialEq::eq') or (x['k'] == 'Binary' and x.get('op') == 'Eq')] if ct else []
+                        if len(eqs) == 1:
+                            tab = {}
+                            dup = False
+                            for l, r in rows:
+                                if l in tab: dup = True        # `find` returns the first: a repeated spelling shadows the later row
+                                tab.setdefault(l, r[2])
+                            out['tables'][g] = tab
+                            out['fallthrough'][g] = '_'
                 if ms:
                     tab = {}
                     m = ms[0]
@@ -251,7 +295,20 @@ def fixed_point_dispatch(lib):
 def tte_tables(lib):
     t = lib.ithir.get('rsbdd::truth_table::TruthTableEntry::matches')
     out = {}
-    if t is None: return None
+    if t is None:
+        # the spellings may live in a const table of (variant, [spellings]) that from_str searches with `contains`
+        fs = [k for k in lib.ithir if k.endswith('FromStr>::from_str') and 'TruthTableEntry' in k]
+        if not fs: return None
+        ft = lib.ithir[fs[0]]
+        bodies = [ft['body']] + [lib.ithir[canon(x['def'])]['body'] for x in walk(ft['body']) if x['k'] == 'Closure' and canon(x['def']) in lib.ithir]
+        cname, rows = const_pair_table(lib, ft['body'])
+        uses_contains = any(x['k'] == 'Call' and (callee_name(x) or '').endswith('::contains') for b in bodies for x in walk(b))
+        if not rows or not uses_contains: return None
+        for l, r in rows:
+            if isinstance(l, tuple) and l[0] == 'enum' and l[1] == 'rsbdd::truth_table::TruthTableEntry' and isinstance(r, tuple) and all(isinstance(x, str) for x in r):
+                out.setdefault(l[2], set()).update(r)
+            else: return None
+        return out
     for m in walk(t['body']):
         if m['k'] != 'Match': continue
         for a in m['arms']:
